@@ -85,6 +85,8 @@ class Ctx:
         if not changed:
             return None
         c = construct.split("->")[0]
+        if c in ((getattr(self.repo, "unfolded", None) or {}).get("<new>") or ()):
+            return (c, "is a function the confirmed tree does not have; a rule that reads confirmed forms cannot judge it, and it")
         best = None
         for q, n in changed.items():
             q0 = q.split("#")[0]
